@@ -82,7 +82,7 @@ def run_group(entry, sc, seed, variant, kind):
         events = [{"ev": "Raised", "exc": "%s: %s" % (type(ex).__name__, str(ex)[:160]), "after": len(obs)}]
     if events is None:
         finite = [abs(v) for o in obs for v in o[1].values() if np.isfinite(v)]
-        scale = max(max(finite), 1e-9) if finite else 1.0   # absolute floor: 1e-9 / 2^19
+        scale = max(max(finite), 1e-6) if finite else 1.0   # absolute floor of the band: 1e-6 / 2^19 = 2e-12
         events = [{"ev": "Obs", "name": name, "vals": [[int(s) + 1, _enc(v, scale)] for s, v in sorted(vals.items())],
                    "sel": int(sel) + 1, "samekeys": samekeys, "cmpsel": cmpsel}
                   for name, vals, sel, samekeys, cmpsel in obs]
@@ -122,6 +122,9 @@ def main(tier="quick", seed=0):
     if not quick:
         scenarios += [s for s in chk.generate("PoolGen", "PoolGen5.cfg")
                       if s["mode"] == "none" and s["n"] - len(s["labeled"]) >= 2 and s["bs"] == 1]
+    # larger seeded pools (5-9 samples): index bookkeeping errors show only with several unlabeled samples
+    scenarios += [dict(x, mode="none", S=[], bs=1) for x in pc.random_scenarios(rng, len(scenarios), 5, 9)
+                  if x["n"] - len(x["labeled"]) >= 2]
     per_cost = {1: 100, 2: 40, 3: 12} if quick else {1: 800, 2: 300, 3: 80}
     jobs = []
     # restriction / permutation are claimed for deterministic sample-wise scores: scenarios in which
@@ -131,8 +134,8 @@ def main(tier="quick", seed=0):
     warm = [s for s in scenarios if len(s["labeled"]) >= 2 and s["labpat"] == "all-classes"]
     for e in ENTRIES.values():
         kinds = ["modes"] + (["restrict", "permute"] if e.samplewise else [])
-        if e.name == "ExpectedModelChangeMaximization":
-            kinds.remove("permute")
+        if e.name in ("ExpectedModelChangeMaximization", "CostEmbeddingAL"):
+            kinds.remove("permute")      # bootstrap samples / nearest-neighbour ties depend on the row order
         for kind in kinds:
             pool = scenarios if kind == "modes" else warm
             for n_, i in enumerate(rng.choice(len(pool), size=min(per_cost[e.cost], len(pool)), replace=False)):
@@ -149,7 +152,7 @@ def main(tier="quick", seed=0):
                 "query calls; distinct = (configuration, relation, scenario)" % len(ENTRIES))
     chk.validate("EquivTrace", traces, key_of=finding_key, describe=lambda t: t["concrete"])
     chk.assumptions = ["utilities[0] is compared per sample identity in a fixed-point encoding relative to the largest "
-                       "finite value of the group, at least 1e-9 (band 2^-19 of that scale; NaN only equals NaN; +-inf exact)",
+                       "finite value of the group, at least 1e-6 (band 2^-19 of that scale; NaN only equals NaN; +-inf exact)",
                        "selections are compared only when the reference's best utility is unique by more than twice "
                        "the band", "the process-global generator is reseeded identically before every call",
                        "sample-wise scorers (restriction / permutation relations): " +
